@@ -38,6 +38,7 @@ def run(ctx, sess):
     ctx.rule('C03.q', 'repair validates a copied chunk against that chunk: a compare with the length of the read buffer (self->buf->length) that involves data copied out of the buffer earlier has no chunk read between the copy and the compare - after another read the buffer describes a different chunk (an index was checked against the length of the summary that follows it, and a file cut inside jls_wr_close could not be opened)')
     ctx.rule('C03.r', 'pointer repair ends every chain it walked: each local copy of a chunk header that jls_track_repair_pointers keeps as the last good chunk of a chain (the index, its summary, the data chunk) has its item_next cleared and is rewritten - none is left pointing past the cut')
     ctx.rule('C03.s', 'repair continues behind blocks that were left out: the offset at which the level-0 walk of the FSR rebuild starts is taken from a level-1 index entry, and an entry is 0 for a block that was left out - the walk goes back to the last entry that names a stored block, and the sample id it expects next is the end of what the stored level-1 pair covers, not the end of that block (else complete blocks that follow left-out ones are dropped although they are on disk)')
+    ctx.rule('C03.t', 'the open of an unclosed file survives its own re-open: a file that needs repair has no length in its header, and jls_raw_open reports exactly that with JLS_ERROR_TRUNCATED - wherever jls_rd_open re-opens the file for writing, that result is compared with JLS_ERROR_TRUNCATED before the error exit is taken (a plain `if (rc) goto exit` turns every stop in that window into a file that cannot be opened)')
     ctx.rule('C03.n', 'repair copies a chunk into a typed buffer only after checking what it is: every memcpy of the bytes just read into a level / sample buffer is preceded by a compare of the chunk tag and by a compare of the length with the capacity of the destination')
     ctx.rule('C03.d', 'truncation is reachable only from the repair branch of jls_rd_open')
     ra(ctx, P)
@@ -56,6 +57,7 @@ def run(ctx, sess):
     repair_length_rule(ctx, P, 'C03.q')
     repair_chains_rule(ctx, P, 'C03.r')
     repair_omitted_tail_rule(ctx, P, 'C03.s')
+    append_open_rule(ctx, P, 'C03.t')
     end_at_end_rule(ctx, P)
     from .c14 import head_table_rule, WRITER_ROOT_PREFIXES
     roots = sorted(f.name for f in P.all_functions() if f.api and f.name.startswith(WRITER_ROOT_PREFIXES))
@@ -876,3 +878,50 @@ def repair_omitted_tail_rule(ctx, P, rule):
         ctx.ob(rule, covered, fn.name, 'expected sample id %s accounts for what the stored level-1 pair covers' % exp, fn.where() if not hasattr(b, 'where') else fn.where(),
                'one of its values is the first id of the summary chunk plus its entries times the decimation' if covered else
                'the id expected behind the block reached by the descent is always the end of that block: when the index ends in blocks that were left out, the next stored block starts later, is taken for a gap and ends the signal - complete blocks on disk are lost')
+
+
+def append_open_rule(ctx, P, rule):
+    fn = P.fn('jls_rd_open')
+    ctx.saw(fn, 1)
+    TRUNC = P.enum_consts.get('JLS_ERROR_TRUNCATED')
+    if TRUNC is None:
+        raise AnalysisBroken('JLS_ERROR_TRUNCATED not found')
+    n = 0
+    for c in fn.calls('jls_raw_open'):
+        if len(c.args) < 3 or strip_casts(c.args[2]).get('s') in ('r', None):
+            continue
+        n += 1
+        # the local that receives the result
+        var = None
+        for ev in fn.stores():
+            lhs, rhs, o = ev.store_parts()
+            if rhs is not None and any(nd.get('op') == 'call' and nd.get('id') == c.e.get('id') for nd in walk(rhs)) and strip_casts(lhs).get('op') == 'ref':
+                var = strip_casts(lhs)['name']
+        tolerant = False
+        if var is not None:
+            # blocks reachable from the call before the result is overwritten
+            seen = set()
+            work = [c.block]
+            first = True
+            while work:
+                b = work.pop()
+                if b.id in seen:
+                    continue
+                seen.add(b.id)
+                evs = b.events[c.idx + 1:] if (first and b is c.block) else b.events
+                first = False
+                killed = any(e2.k == 'store' and strip_casts(e2.store_parts()[0]).get('name') == var and
+                             not any(nd.get('op') == 'call' and nd.get('id') == c.e.get('id') for nd in walk(e2.store_parts()[1] or {})) for e2 in evs)
+                if killed:
+                    continue
+                cc = strip_casts(b.cond) if b.cond is not None else None
+                if cc is not None and cc.get('op') == 'bin' and cc['o'] in ('!=', '==') and TRUNC in (const_of(cc['k'][0]), const_of(cc['k'][1])) and \
+                        any(nd.get('op') == 'ref' and nd.get('name') == var for nd in walk(cc)):
+                    tolerant = True
+                    break
+                for s_, _ in b.succs:
+                    work.append(s_)
+        ctx.ob(rule, tolerant, fn.name, 'jls_raw_open(.., "%s") of a file that may have no header length' % strip_casts(c.args[2]).get('s'), c.where(),
+               'the result is compared with JLS_ERROR_TRUNCATED before it counts as a failure' if tolerant else
+               'any non-zero result ends the open: jls_raw_open returns JLS_ERROR_TRUNCATED for a header without a length - the very state this branch is there to repair - so the file cannot be opened (once; the error path may leave a length behind)')
+    ctx.floor('writable re-opens in jls_rd_open', n, 2)
